@@ -296,7 +296,9 @@ func newSim(t *testing.T, in input, res *result) (*sim, error) {
 	s.keyOf[s.yKid] = "KY"
 	_, meta, err := g.resolve(s.y, nil)
 	if err != nil {
-		return nil, fmt.Errorf("genesis not resolvable on its own node: %w", err)
+		// created through the real manager and acknowledged, but the creating node itself does not resolve it: that is E3
+		s.viol("X09", "acknowledged-update-lost", fmt.Sprintf("set-up: the DID created on node %s (Commit returned nil) is not resolvable on that very node: %v", in.Rogue, err))
+		return s, fmt.Errorf("genesis not resolvable on its own node: %w", err)
 	}
 	gtx, err := g.net.GetTransaction(meta.SourceTransactions[0])
 	if err != nil {
@@ -309,7 +311,9 @@ func newSim(t *testing.T, in input, res *result) (*sim, error) {
 		if p != in.Rogue {
 			s.exchange(in.Rogue, p, nil, 0, false)
 			if !s.nodes[p].hasTx(t0.ref) {
-				return nil, fmt.Errorf("set-up: node %s did not obtain the genesis transaction", p)
+				// the REAL protocol between two healthy, connected nodes did not transfer one transaction: that is E1
+				s.viol("X09", "no-convergence", fmt.Sprintf("set-up: node %s never obtained the root transaction of node %s (3 complete gossip exchanges)", p, in.Rogue))
+				return s, fmt.Errorf("set-up: node %s did not obtain the genesis transaction", p)
 			}
 		}
 	}
